@@ -15,8 +15,8 @@ extern "C" const char *harness_id() { return "C13"; }
 void harness_init() {}
 size_t harness_max_len() { return 700; }
 
-enum OpKind { OP_ADD, OP_RUN, OP_REPLY_VALID, OP_DELIVER, OP_REPLY_DUP, OP_REPLY_UNKNOWN_ID, OP_REPLY_STALE, OP_REPLY_BAD_MAC, OP_REPLY_STATUS, OP_REPLY_ERROR_PDU, OP_PUSH_CONFIG, OP_GARBAGE, OP_CLOSE, OP_RESET, OP_REFUSE_NEXT, OP_ADVANCE, OP_REPLY_EARLY, OP_BLOCK_SEND, OP_CLOSE_PARTIAL, OP_KIND_COUNT };
-static const char *kOpName[] = {"add", "run", "reply", "deliver", "dup", "unknown-id", "stale", "bad-mac", "status", "error-pdu", "push-config", "garbage", "close", "reset", "refuse-next", "advance", "early-reply", "block-send", "close-partial"};
+enum OpKind { OP_ADD, OP_RUN, OP_REPLY_VALID, OP_DELIVER, OP_REPLY_DUP, OP_REPLY_UNKNOWN_ID, OP_REPLY_STALE, OP_REPLY_BAD_MAC, OP_REPLY_STATUS, OP_REPLY_ERROR_PDU, OP_PUSH_CONFIG, OP_GARBAGE, OP_CLOSE, OP_RESET, OP_REFUSE_NEXT, OP_ADVANCE, OP_REPLY_EARLY, OP_BLOCK_SEND, OP_CLOSE_PARTIAL, OP_KIND_COUNT, OP_GROW_CACHE = OP_KIND_COUNT /* outside the range the choice-string decoder draws from (saved replay files keep their meaning); inserted separately */, OP_ALL_COUNT };
+static const char *kOpName[] = {"add", "run", "reply", "deliver", "dup", "unknown-id", "stale", "bad-mac", "status", "error-pdu", "push-config", "garbage", "close", "reset", "refuse-next", "advance", "early-reply", "block-send", "close-partial", "resize-cache"};
 struct Op { int kind; unsigned arg; };
 struct Cfg { unsigned cacheSize, maxPerRound, sndTo, rcvTo, conTo; };
 
@@ -91,6 +91,12 @@ struct World {
         trace += std::string(kOpName[op.kind]) + (op.kind == OP_DELIVER || op.kind == OP_ADVANCE || op.kind >= OP_REPLY_VALID ? ":" + num(op.arg) : "") + " "; c.cls(std::string("op:") + kOpName[op.kind]);
         sim::Conn *cn = liveConn(); std::vector<int> sent = sentOutstanding(), all = allOutstanding();
         switch (op.kind) {
+        case OP_GROW_CACHE: { // the cache is re-configured while the service is in use: larger (or equal) sizes take effect at once and keep every outstanding request, a smaller size is refused
+            unsigned m = op.arg % 4; unsigned old = cfg.cacheSize; bool wasFull = outstanding == old; size_t ns = m == 0 ? old + 1 : m == 1 ? old + 3 : m == 2 ? old : (old > 1 ? old - 1 : old); int res = KSI_AsyncService_setOption(as, KSI_ASYNC_OPT_REQUEST_CACHE_SIZE, (void *)ns);
+            if (ns >= old && res != KSI_OK) { fail("C13:cache-resize-refused", "enlarging the request cache from " + num(old) + " to " + num((long long)ns) + " failed res=" + num(res)); break; }
+            if (res == KSI_OK) { if (outstanding > ns) { fail("C13:cache-shrunk-below-outstanding", "cache size reduced below the number of outstanding requests"); break; } cfg.cacheSize = (unsigned)ns; }
+            size_t rep = 0; KSI_AsyncService_getOption(as, KSI_ASYNC_OPT_REQUEST_CACHE_SIZE, (void *)&rep); if (rep != cfg.cacheSize) fail("C13:cache-size-reported", "reported cache size " + num((long long)rep) + " differs from the configured " + num(cfg.cacheSize));
+            c.cls(ns < old ? "resize-cache:smaller" : outstanding == 0 ? "resize-cache:idle" : wasFull ? "resize-cache:while-full" : "resize-cache:while-in-use"); break; }
         case OP_ADD: { Req r; r.idx = (int)reqs.size(); r.hash.assign(33, 0); r.hash[0] = 1; for (size_t i = 1; i < 33; i++) r.hash[i] = (uint8_t)(r.idx * 31 + i); KSI_AggregationReq *rq = nullptr; KSI_AggregationReq_new(ctx, &rq); KSI_DataHash *dh = nullptr; KSI_DataHash_fromImprint(ctx, r.hash.data(), r.hash.size(), &dh); KSI_AggregationReq_setRequestHash(rq, dh);
             KSI_AsyncHandle *h = nullptr; if (KSI_AsyncAggregationHandle_new(ctx, rq, &h) != KSI_OK) { KSI_AggregationReq_free(rq); break; } int res = KSI_AsyncService_addRequest(as, h); bool full = outstanding == cfg.cacheSize;
             if (res == KSI_OK) { if (full) { fail("C13:cache-full-not-refused", "request accepted although " + num((long long)outstanding) + " requests are outstanding with cache size " + num(cfg.cacheSize)); KSI_AsyncHandle_free(h); break; }
@@ -171,16 +177,17 @@ void harness_case(Dec &d, Case &c) {
     static const unsigned tos[] = {10, 10, 0, 1, 3, 60}; cfg.sndTo = tos[d.pick(6)]; cfg.rcvTo = tos[d.pick(6)]; cfg.conTo = tos[d.pick(6)];
     unsigned n = d.pick(4) == 0 ? d.pick(300) : d.pick(40); std::vector<Op> ops;
     for (unsigned i = 0; i < n; i++) { Op op; unsigned k = d.pick(32); op.kind = k < 8 ? OP_ADD : k < 15 ? OP_RUN : k < 19 ? OP_REPLY_VALID : k < 22 ? OP_DELIVER : (int)(OP_REPLY_DUP + (k - 22) % (OP_KIND_COUNT - OP_REPLY_DUP)); if (k >= 22) op.kind = (int)(OP_REPLY_DUP + d.pick(OP_KIND_COUNT - OP_REPLY_DUP)); op.arg = d.byte(); ops.push_back(op); }
+    { unsigned g = d.pick(3); if (g != 0) { for (unsigned i = 0; i < g; i++) { Op op; op.kind = OP_GROW_CACHE; op.arg = d.byte(); ops.insert(ops.begin() + d.pick((uint32_t)ops.size() + 1), op); } } } // drawn last: older replay files decode to "no resize"
     runSchedule(c, cfg, ops);
 }
 // exhaustive: every schedule up to a length bound over the whole operation alphabet, for cache sizes 1 and 2
 void harness_exh_case(const uint8_t *enc, size_t n, Case &c) {
-    if (n < 1) { c.skip("short"); return; } Cfg cfg; cfg.cacheSize = 1 + (enc[0] & 1); cfg.maxPerRound = (enc[0] & 2) ? 1 : 5; cfg.sndTo = cfg.rcvTo = cfg.conTo = 10; std::vector<Op> ops; for (size_t i = 1; i < n; i++) { Op op; op.kind = enc[i] % OP_KIND_COUNT; op.arg = 0; ops.push_back(op); }
+    if (n < 1) { c.skip("short"); return; } Cfg cfg; cfg.cacheSize = 1 + (enc[0] & 1); cfg.maxPerRound = (enc[0] & 2) ? 1 : 5; cfg.sndTo = cfg.rcvTo = cfg.conTo = 10; std::vector<Op> ops; for (size_t i = 1; i < n; i++) { Op op; op.kind = enc[i] % OP_ALL_COUNT; op.arg = 0; ops.push_back(op); }
     runSchedule(c, cfg, ops);
 }
 void harness_exhaustive(int shard, int nshards) {
     unsigned L = tier() ? 5 : 4; uint64_t cnt = 0;
-    for (unsigned cfgv = 0; cfgv < 4; cfgv++) for (unsigned len = 1; len <= L; len++) { uint64_t total = 1; for (unsigned i = 0; i < len; i++) total *= OP_KIND_COUNT;
-        for (uint64_t v = 0; v < total; v++) { Bytes enc{(uint8_t)cfgv}; uint64_t x = v; bool hasAdd = false; for (unsigned i = 0; i < len; i++) { enc.push_back((uint8_t)(x % OP_KIND_COUNT)); if (x % OP_KIND_COUNT == OP_ADD) hasAdd = true; x /= OP_KIND_COUNT; } if (!hasAdd) continue; cnt++; if ((int)(cnt % (uint64_t)nshards) != shard) continue; if (vf::runExh(enc)) return; } }
-    if (shard == 0) vf::stats().exhaustive["schedules of length 1.." + num(L) + " over 19 operations containing an add, x cache size {1,2} x per-round limit {1,5}"] = cnt;
+    for (unsigned cfgv = 0; cfgv < 4; cfgv++) for (unsigned len = 1; len <= L; len++) { uint64_t total = 1; for (unsigned i = 0; i < len; i++) total *= OP_ALL_COUNT;
+        for (uint64_t v = 0; v < total; v++) { Bytes enc{(uint8_t)cfgv}; uint64_t x = v; bool hasAdd = false; for (unsigned i = 0; i < len; i++) { enc.push_back((uint8_t)(x % OP_ALL_COUNT)); if (x % OP_ALL_COUNT == OP_ADD) hasAdd = true; x /= OP_ALL_COUNT; } if (!hasAdd) continue; cnt++; if ((int)(cnt % (uint64_t)nshards) != shard) continue; if (vf::runExh(enc)) return; } }
+    if (shard == 0) vf::stats().exhaustive["schedules of length 1.." + num(L) + " over 20 operations containing an add, x cache size {1,2} x per-round limit {1,5}"] = cnt;
 }
